@@ -1,13 +1,22 @@
-// filecounter: apricot/local/service.go, Service.NewRunNumber, the branch for the non-Consul
-// backend - which file and parsing operations it makes, in source order, and what exactly is
-// handed to the number parser (C07, model RunCounter.v: the file model assumes os.Stat, a
-// create with WriteFile, ReadFile, a strict ParseUint(_, 10, 32) of the file's bytes as they
-// are, and a write-back with WriteFile, i.e. truncate-then-write and no rename).
+// filecounter: package apricot/local, Service.NewRunNumber, the part for the non-Consul backend -
+// which file and parsing operations it makes, in execution order, and what exactly is handed to
+// the number parser (C07, model RunCounter.v: the file model assumes os.Stat, a create with
+// WriteFile, ReadFile, a strict ParseUint(_, 10, 32) of the file's bytes as they are, and a
+// write-back with WriteFile, i.e. truncate-then-write and no rename).
+//
+// The reading does not depend on how the code is laid out: declarations are looked up in the
+// whole package (not in a file), calls to functions and methods of the package are followed
+// (their bodies are read at the place of the call, four levels deep), the Consul part is
+// whatever is done under the type test on *ConsulSource (then-branch of the if, or the case arm
+// of a type switch) whether the rest is in an else or after an early return, named constants
+// are resolved, local variables that merely hold the bytes read or their string conversion are
+// followed, names of locals / receivers / helpers do not matter.
 package main
 
 import (
 	"fmt"
 	"go/ast"
+	"go/token"
 	"strings"
 )
 
@@ -22,90 +31,287 @@ var fileCounterOps = map[string]bool{
 	"TrimFunc": true, "Fields": true, "Split": true, "Replace": true, "ReplaceAll": true, "Map": true,
 }
 
-func fileCounter() string {
-	fset, f := parseFile("apricot/local/service.go")
-	fd := findFunc(f, "Service", "NewRunNumber")
-	if fd == nil {
-		die("filecounter: (*Service).NewRunNumber not found")
+type fcWalk struct {
+	pkg       *symPkg
+	ops       []string
+	readVars  map[string]bool // hold the bytes read
+	strVars   map[string]bool // hold string(<bytes read>)
+	parseArg  string
+	base      int64
+	bits      int64
+	nParse    int
+	depth     int
+	recvType  string
+	seenFuncs map[*ast.FuncDecl]bool
+}
+
+func (w *fcWalk) text(n ast.Node) string {
+	return exprText(w.pkg.fset, n)
+}
+
+func (w *fcWalk) isConsulTest(n ast.Node) bool {
+	return n != nil && strings.Contains(w.text(n), "ConsulSource")
+}
+
+func (w *fcWalk) intConst(e ast.Expr) int64 {
+	for i := 0; i < 4; i++ {
+		if v, ok := intLit(e); ok {
+			return v
+		}
+		id, ok := e.(*ast.Ident)
+		if !ok {
+			break
+		}
+		c, ok := w.pkg.consts[id.Name]
+		if !ok {
+			break
+		}
+		e = c
 	}
-	// the else branch of the type test on the Consul source
-	var branch *ast.BlockStmt
-	for _, st := range fd.Body.List {
-		if is, ok := st.(*ast.IfStmt); ok && strings.Contains(exprText(fset, is.Init)+exprText(fset, is.Cond), "ConsulSource") {
-			if b, ok := is.Else.(*ast.BlockStmt); ok {
-				branch = b
+	return -1
+}
+
+// isBytesRead: the expression is the bytes read from the file, as they are (raw, raw[:])
+func (w *fcWalk) isBytesRead(e ast.Expr) bool {
+	e = unparen(e)
+	if sl, ok := e.(*ast.SliceExpr); ok && sl.Low == nil && sl.High == nil {
+		e = unparen(sl.X)
+	}
+	id, ok := e.(*ast.Ident)
+	return ok && w.readVars[id.Name]
+}
+
+// isStringOfBytesRead: string(<bytes read>) or a variable that holds just that
+func (w *fcWalk) isStringOfBytesRead(e ast.Expr) bool {
+	e = unparen(e)
+	if id, ok := e.(*ast.Ident); ok {
+		return w.strVars[id.Name]
+	}
+	if c, ok := e.(*ast.CallExpr); ok && len(c.Args) == 1 {
+		if id, ok := c.Fun.(*ast.Ident); ok && id.Name == "string" {
+			return w.isBytesRead(c.Args[0])
+		}
+	}
+	return false
+}
+
+func (w *fcWalk) noteAssign(lhs []ast.Expr, rhs []ast.Expr) {
+	if len(rhs) == 1 {
+		if c, ok := unparen(rhs[0]).(*ast.CallExpr); ok {
+			if s, ok := c.Fun.(*ast.SelectorExpr); ok && (s.Sel.Name == "ReadFile" || s.Sel.Name == "ReadAll") && len(lhs) >= 1 {
+				if id, ok := lhs[0].(*ast.Ident); ok {
+					w.readVars[id.Name] = true
+				}
+				return
 			}
 		}
 	}
-	if branch == nil {
-		branch = fd.Body // restructured: take the whole function
+	for i, l := range lhs {
+		id, ok := l.(*ast.Ident)
+		if !ok || i >= len(rhs) || len(lhs) != len(rhs) {
+			continue
+		}
+		switch {
+		case w.isBytesRead(rhs[i]):
+			w.readVars[id.Name] = true
+		case w.isStringOfBytesRead(rhs[i]):
+			w.strVars[id.Name] = true
+		default:
+			delete(w.readVars, id.Name)
+			delete(w.strVars, id.Name)
+		}
 	}
-	var ops []string
-	readVars := map[string]bool{} // variables assigned from ReadFile / ReadAll
-	parseArg := ""
-	parseBase, parseBits := int64(-1), int64(-1)
-	nParse := 0
-	ast.Inspect(branch, func(x ast.Node) bool {
+}
+
+func (w *fcWalk) call(c *ast.CallExpr) {
+	// arguments first (they are evaluated first)
+	for _, a := range c.Args {
+		w.expr(a)
+	}
+	if s, ok := c.Fun.(*ast.SelectorExpr); ok {
+		w.expr(s.X)
+		if fileCounterOps[s.Sel.Name] {
+			// a method of this package with such a name is a helper, not a file operation
+			if fd := w.pkg.callee(c, w.recvType); fd == nil {
+				w.ops = append(w.ops, s.Sel.Name)
+				if s.Sel.Name == "ParseUint" || s.Sel.Name == "ParseInt" || s.Sel.Name == "Atoi" {
+					w.nParse++
+					if len(c.Args) >= 1 {
+						if w.isStringOfBytesRead(c.Args[0]) {
+							w.parseArg = "the bytes read"
+						} else {
+							w.parseArg = w.text(c.Args[0])
+						}
+					}
+					if len(c.Args) == 3 {
+						w.base, w.bits = w.intConst(c.Args[1]), w.intConst(c.Args[2])
+					}
+				}
+				return
+			}
+		}
+	}
+	// a function or method of this package: read its body here
+	if fd := w.pkg.callee(c, w.recvType); fd != nil && w.depth < 4 && !w.seenFuncs[fd] {
+		// hand the knowledge about arguments to the parameters
+		i := 0
+		for _, p := range fd.Type.Params.List {
+			for _, n := range p.Names {
+				if i < len(c.Args) {
+					switch {
+					case w.isBytesRead(c.Args[i]):
+						w.readVars[n.Name] = true
+					case w.isStringOfBytesRead(c.Args[i]):
+						w.strVars[n.Name] = true
+					}
+				}
+				i++
+			}
+		}
+		w.seenFuncs[fd] = true
+		w.depth++
+		old := w.recvType
+		if r := recvTypeName(fd); r != "" {
+			w.recvType = r
+		}
+		w.stmts(fd.Body.List)
+		w.recvType = old
+		w.depth--
+		delete(w.seenFuncs, fd)
+	}
+}
+
+func (w *fcWalk) expr(e ast.Node) {
+	if e == nil {
+		return
+	}
+	ast.Inspect(e, func(x ast.Node) bool {
 		switch v := x.(type) {
-		case *ast.AssignStmt:
-			if len(v.Rhs) == 1 {
-				if c, ok := v.Rhs[0].(*ast.CallExpr); ok {
-					if s, ok := c.Fun.(*ast.SelectorExpr); ok && (s.Sel.Name == "ReadFile" || s.Sel.Name == "ReadAll") {
-						if id, ok := v.Lhs[0].(*ast.Ident); ok {
-							readVars[id.Name] = true
-						}
-					}
-				}
-			}
 		case *ast.CallExpr:
-			s, ok := v.Fun.(*ast.SelectorExpr)
-			if !ok || !fileCounterOps[s.Sel.Name] {
-				return true
-			}
-			if id, ok := s.X.(*ast.Ident); ok && id.Name == "cSrc" {
-				return true
-			}
-			ops = append(ops, s.Sel.Name)
-			if s.Sel.Name == "ParseUint" || s.Sel.Name == "ParseInt" || s.Sel.Name == "Atoi" {
-				nParse++
-				if len(v.Args) >= 1 {
-					parseArg = exprText(fset, v.Args[0])
-					// string(raw) / string(raw[:]) of the bytes read, nothing in between
-					if c, ok := v.Args[0].(*ast.CallExpr); ok && len(c.Args) == 1 {
-						if id, ok := c.Fun.(*ast.Ident); ok && id.Name == "string" {
-							a := c.Args[0]
-							if sl, ok := a.(*ast.SliceExpr); ok && sl.Low == nil && sl.High == nil {
-								a = sl.X
-							}
-							if id, ok := a.(*ast.Ident); ok && readVars[id.Name] {
-								parseArg = "the bytes read"
-							}
-						}
-					}
-				}
-				if len(v.Args) == 3 {
-					if b, ok := intLit(v.Args[1]); ok {
-						parseBase = b
-					}
-					if b, ok := intLit(v.Args[2]); ok {
-						parseBits = b
-					}
-				}
-			}
+			w.call(v)
+			return false
+		case *ast.FuncLit:
+			w.stmts(v.Body.List)
+			return false
 		}
 		return true
 	})
-	if nParse != 1 {
-		die("filecounter: expected exactly one number parse in the file branch of NewRunNumber, found %d", nParse)
+}
+
+func (w *fcWalk) stmts(list []ast.Stmt) {
+	for _, st := range list {
+		switch v := st.(type) {
+		case *ast.AssignStmt:
+			for _, r := range v.Rhs {
+				w.expr(r)
+			}
+			w.noteAssign(v.Lhs, v.Rhs)
+		case *ast.DeclStmt:
+			if gd, ok := v.Decl.(*ast.GenDecl); ok {
+				for _, sp := range gd.Specs {
+					if vs, ok := sp.(*ast.ValueSpec); ok && len(vs.Values) > 0 {
+						for _, r := range vs.Values {
+							w.expr(r)
+						}
+						lhs := make([]ast.Expr, len(vs.Names))
+						for i, n := range vs.Names {
+							lhs[i] = n
+						}
+						w.noteAssign(lhs, vs.Values)
+					}
+				}
+			}
+		case *ast.IfStmt:
+			if v.Init != nil {
+				w.stmts([]ast.Stmt{v.Init})
+			}
+			w.expr(v.Cond)
+			if w.isConsulTest(v.Init) || w.isConsulTest(v.Cond) {
+				// the Consul part: not ours
+			} else {
+				w.stmts(v.Body.List)
+			}
+			if v.Else != nil {
+				w.stmts([]ast.Stmt{v.Else})
+			}
+		case *ast.TypeSwitchStmt:
+			for _, cl := range v.Body.List {
+				cc := cl.(*ast.CaseClause)
+				consul := false
+				for _, t := range cc.List {
+					if w.isConsulTest(t) {
+						consul = true
+					}
+				}
+				if !consul {
+					w.stmts(cc.Body)
+				}
+			}
+		case *ast.SwitchStmt:
+			if v.Init != nil {
+				w.stmts([]ast.Stmt{v.Init})
+			}
+			w.expr(v.Tag)
+			for _, cl := range v.Body.List {
+				cc := cl.(*ast.CaseClause)
+				for _, e := range cc.List {
+					w.expr(e)
+				}
+				w.stmts(cc.Body)
+			}
+		case *ast.BlockStmt:
+			w.stmts(v.List)
+		case *ast.ForStmt:
+			if v.Init != nil {
+				w.stmts([]ast.Stmt{v.Init})
+			}
+			w.expr(v.Cond)
+			w.stmts(v.Body.List)
+		case *ast.RangeStmt:
+			w.expr(v.X)
+			w.stmts(v.Body.List)
+		case *ast.ReturnStmt:
+			for _, r := range v.Results {
+				w.expr(r)
+			}
+		case *ast.ExprStmt:
+			w.expr(v.X)
+		case *ast.DeferStmt:
+			w.expr(v.Call)
+		case *ast.LabeledStmt:
+			w.stmts([]ast.Stmt{v.Stmt})
+		default:
+			w.expr(st)
+		}
 	}
-	return fmt.Sprintf(`(* generated by harness/cmd/translate filecounter from apricot/local/service.go
-   (Service.NewRunNumber, non-Consul branch); do not edit *)
+}
+
+func fileCounter() string {
+	pkg := loadSymPkg("apricot/local")
+	var fd *ast.FuncDecl
+	for _, d := range pkg.funcs["NewRunNumber"] {
+		if recvTypeName(d) == "Service" || fd == nil {
+			fd = d
+		}
+	}
+	if fd == nil {
+		die("filecounter: NewRunNumber not found in package apricot/local")
+	}
+	w := &fcWalk{pkg: pkg, readVars: map[string]bool{}, strVars: map[string]bool{}, base: -1, bits: -1,
+		recvType: recvTypeName(fd), seenFuncs: map[*ast.FuncDecl]bool{fd: true}}
+	w.stmts(fd.Body.List)
+	if w.nParse != 1 {
+		die("filecounter: expected exactly one number parse in the file part of NewRunNumber, found %d", w.nParse)
+	}
+	_ = token.NoPos
+	return fmt.Sprintf(`(* generated by harness/cmd/translate filecounter from package apricot/local
+   (Service.NewRunNumber, non-Consul part, helpers of the package read through); do not edit *)
 From Coq Require Import String List NArith ZArith.
 Import ListNotations.
 Open Scope string_scope.
-(* file and parsing operations of the branch, in source order *)
+(* file and parsing operations, in execution order *)
 Definition gen_fc_ops : list string := %s.
 (* what is handed to the parser, its base and bit size *)
 Definition gen_fc_parse : string * Z * Z := (%s, (%d)%%Z, (%d)%%Z).
-`, coqStringList(ops), coqString(parseArg), parseBase, parseBits)
+`, coqStringList(w.ops), coqString(w.parseArg), w.base, w.bits)
 }
